@@ -130,7 +130,7 @@ def gen_value(rng, depth=0):
     if depth < 3 and r < 0.24:
         keys = []
         for _ in range(rng.randint(0, 3)):
-            k = gen_string(rng)
+            k = rng.choice(PARAM_NAMES + ["self"]) if rng.random() < 0.15 else gen_string(rng)
             if k not in keys:
                 keys.append(k)
         return ["dict", [[k, gen_value(rng, depth + 1)] for k in keys]]
@@ -263,6 +263,11 @@ NOISE_PIECES = [
 ]
 KEYS_OK = ["a", "loss", "epoch", "x y", "", "{", "}", "}\n", TAGTXT, "é", "ST_x", "xst_", "st", "s", "_st_", "[", '"', "\\",
            "日本", "k1", "k2", "k3", "st-", "St_a"]
+# names of parameters / locals of the functions on the reporting path (Reporter.__call__ -> _report_logger ->
+# _serialize_report_dict -> dump_json_with_numpy -> json.dumps / print): a metric may be called like that
+PARAM_NAMES = ["tag", "kwargs", "file", "end", "sep", "flush", "level", "report_dict", "strict", "add_time", "add_cost", "obj",
+               "default", "skipkeys", "indent", "x", "filename", "key", "args", "cls", "separators", "ensure_ascii", "e", "iter"]
+KEYS_OK = KEYS_OK + PARAM_NAMES
 KEYS_RESERVED = ["st_", "st_a", "st_worker_iter", "st_worker_time", "st_x}"]
 
 
@@ -467,8 +472,9 @@ def run_sequence(ctx, seq, lines_cases, lines_meta, sender_cases, sender_meta, j
                 except Exception:
                     it = None
             if payload is None or not isinstance(it, int) or not (0 <= it < 4000):
-                ctx.violation("correspondence", "accepted report printed %r, not one tagged line with st_worker_iter" % delta[:300],
-                              case=case, failing_input=False, broken="correspondence chk_sender (model/Report.v report_call)")
+                ctx.violation("property", "report %r returned without exception but printed %r, not one tagged line with its counter: "
+                              "the tuner cannot receive it" % (items, delta[:300]), case=case,
+                              signature=dict(component="Reporter", defect="accepted_report_not_a_tagged_line"))
                 return
             dump = "fun _ => Some (%s, %d)" % (tx(payload), sys.getsizeof(payload))
             obs_terms.append("Emitted %s" % natlit(it))
@@ -1526,6 +1532,44 @@ def resume_stream(ctx, plans):
         shutil.rmtree(tmp, ignore_errors=True)
 
 
+def name_collision_probe(ctx):
+    """every name of PARAM_NAMES (and 'self') as a top-level metric name: the report arrives with that entry, or is
+    rejected by an exception with nothing written; the report after it arrives with the next counter value"""
+    from syne_tune.report import Reporter, retrieve
+    for name in PARAM_NAMES + ["self"]:
+        for value in ("resnet-18", 1.5):
+            case = dict(kind="name", name=name, value=value)
+            buf = io.StringIO()
+            err = None
+            with contextlib.redirect_stdout(buf):
+                rep = Reporter()
+                rep(epoch=0)
+                try:
+                    rep(**{name: value, "epoch": 1})
+                except TypeError as e:
+                    err = e
+                rep(epoch=2)
+            ctx.count(("name", name, value), nontrivial=True)
+            ctx.h("metric_name", "rejected_by_python" if err is not None else "reported")
+            try:
+                got = retrieve(read_like_local_backend(buf.getvalue()))
+            except Exception as e:  # noqa
+                ctx.violation("property", "retrieve raised %s after a report with a metric named %r" % (type(e).__name__, name),
+                              case=case, signature=dict(component="Reporter", defect="metric_name_collides_with_parameter", name=name))
+                continue
+            user = [{k: v for k, v in d.items() if k not in RESERVED} for d in got]
+            iters = [d.get("st_worker_iter") for d in got]
+            if err is not None:
+                want, want_iters = [dict(epoch=0), dict(epoch=2)], [0, 1]
+            else:
+                want, want_iters = [dict(epoch=0), {name: value, "epoch": 1}, dict(epoch=2)], [0, 1, 2]
+            if user != want or iters != want_iters:
+                ctx.violation("property", "report(%s=%r, epoch=1) between report(epoch=0) and report(epoch=2): %s; the stream is %r, the tuner "
+                              "received %r with st_worker_iter %r" % (name, value, "raised " + type(err).__name__ if err else "no exception",
+                                                                     buf.getvalue()[:300], user, iters), case=case,
+                              signature=dict(component="Reporter", defect="metric_name_collides_with_parameter", name=name))
+
+
 def prefix_cases(ctx, rng, lines_cases, lines_meta):
     """retrieve() on every prefix of a stream (a reader that sees the file while it grows): either exactly the
     complete reports so far, or an exception caused by the cut line — never a wrong or missing dictionary"""
@@ -1603,6 +1647,9 @@ def run(ctx, replay=None):
         elif replay.get("kind") == "resume":
             resume_stream(ctx, replay["plans"])
             return
+        elif replay.get("kind") == "name":
+            name_collision_probe(ctx)
+            return
         elif replay.get("kind") == "poll":
             polling_stream(ctx, [[tuple(c) for c in replay["chunks"]]])
             return
@@ -1654,4 +1701,5 @@ def run(ctx, replay=None):
                       case=sender_meta[i], failing_input=False, broken="correspondence chk_sender (model/Report.v report_call)")
     if not replay:
         boundary_probe(ctx)
+        name_collision_probe(ctx)
         notes_probes(ctx)
